@@ -2,6 +2,7 @@
 package main
 
 import (
+	"archive/tar"
 	"bytes"
 	"context"
 	"fmt"
@@ -70,8 +71,8 @@ var entryPoints = []string{"assemble", "assemble", "verifyindex", "chop", "copy"
 var sites = map[string][]string{
 	"assemble":      {"assemble.feeder", "assemble.worker.job", "validate.feeder", "validate.worker.job", "assemble.beforeGetChunk", "assemble.worker.beforeAdd", "store"},
 	"verifyindex":   {"verifyindex.feeder", "pb"},
-	"chop":          {"chop.feeder", "store", "pb"},
-	"copy":          {"copy.feeder", "store", "pb"},
+	"chop":          {"chop.feeder", "store", "pb", "pb+fail"},
+	"copy":          {"copy.feeder", "store", "pb", "pb+fail"},
 	"chunkstream":   {"chunkstream.feeder", "store"},
 	"indexfromfile": {"make.worker.loop", "make.worker.beforeSend", "make.sync.recv"},
 	"tar":           {"fsread", "fsdata", "wbytes"},
@@ -237,8 +238,10 @@ func run(c *harness.Ctx, i int) {
 	}
 	y.Install()
 	defer y.Remove()
+	// "pb+fail": cancelled at the k-th progress event, and every store request that comes after that fails (a shutdown
+	// in which the connections go down too): an error on top of the cancellation must not come out as success
 	pb := &dsu.CountPB{OnAdd: func(hn int64) {
-		if site == "pb" && hn == k {
+		if (site == "pb" || site == "pb+fail") && hn == k {
 			fire()
 		}
 	}}
@@ -253,6 +256,9 @@ func run(c *harness.Ctx, i int) {
 	fstore.Before = func(op string, hn int64, id desync.ChunkID) error {
 		if site == "store" && atomic.AddInt64(&fstoreAll, 1) == k {
 			fire()
+		}
+		if site == "pb+fail" && atomic.LoadInt32(&delivered) == 1 {
+			return dsu.ErrInjected{Msg: "store request after the cancellation"}
 		}
 		return nil
 	}
@@ -414,7 +420,7 @@ func runCLI(c *harness.Ctx, srng *rand.Rand, s, slot int) {
 		c.Info("scenario=%d entry=cli slot=%d skipped", s, slot)
 		return
 	}
-	cmdName := []string{"extract", "extract", "extract-k", "chop", "cache", "make", "tar", "untar", "verify-index"}[srng.Intn(9)]
+	cmdName := []string{"extract", "extract", "extract-k", "chop", "cache", "make", "tar", "tar-stdin", "untar", "verify-index"}[srng.Intn(10)]
 	n := []int{1, 2, 8}[srng.Intn(3)]
 	sig := []syscall.Signal{syscall.SIGINT, syscall.SIGTERM}[srng.Intn(2)]
 	k := int64(slot) // 0: no signal
@@ -463,6 +469,8 @@ func runCLI(c *harness.Ctx, srng *rand.Rand, s, slot int) {
 		}
 	}
 	var wantTree map[string]string
+	var wantArchiveLen int64
+	var stdinFirst, stdinRest []byte
 	switch cmdName {
 	case "extract", "extract-k":
 		fill()
@@ -500,6 +508,33 @@ func runCLI(c *harness.Ctx, srng *rand.Rand, s, slot int) {
 		makeTree(srng, tree)
 		idxFile = filepath.Join(dir, "tree.caidx")
 		args = []string{"tar", "-i", "-n", fmt.Sprint(n), "-m", "1:2:4", "-s", srv.URL, "-e", "1", idxFile, tree}
+		var full bytes.Buffer
+		dsu.Must(desync.Tar(context.Background(), &full, desync.NewLocalFS(tree, desync.LocalFSOptions{})))
+		wantArchiveLen = int64(full.Len())
+	case "tar-stdin":
+		// the tree comes as a tar stream on stdin: one large member, then (after the signal) two tiny ones, so that
+		// less than a chunk of archive is outstanding when the interruption arrives
+		var ts bytes.Buffer
+		tw := tar.NewWriter(&ts)
+		big := make([]byte, 20000+srng.Intn(40000))
+		srng.Read(big)
+		mt := time.Unix(1500000000, 0)
+		tw.WriteHeader(&tar.Header{Typeflag: tar.TypeDir, Name: "./", Mode: 0755, ModTime: mt})
+		tw.WriteHeader(&tar.Header{Typeflag: tar.TypeReg, Name: "./a.bin", Mode: 0644, Size: int64(len(big)), ModTime: mt})
+		tw.Write(big)
+		tw.Flush()
+		stdinFirst = append([]byte(nil), ts.Bytes()...)
+		tw.WriteHeader(&tar.Header{Typeflag: tar.TypeReg, Name: "./b.txt", Mode: 0644, Size: 3, ModTime: mt})
+		tw.Write([]byte("bbb"))
+		tw.WriteHeader(&tar.Header{Typeflag: tar.TypeReg, Name: "./c.txt", Mode: 0644, Size: 3, ModTime: mt})
+		tw.Write([]byte("ccc"))
+		tw.Close()
+		stdinRest = append([]byte(nil), ts.Bytes()[len(stdinFirst):]...)
+		var full bytes.Buffer
+		dsu.Must(desync.Tar(context.Background(), &full, desync.NewTarReader(bytes.NewReader(ts.Bytes()), desync.TarReaderOptions{})))
+		wantArchiveLen = int64(full.Len())
+		idxFile = filepath.Join(dir, "tree.caidx")
+		args = []string{"tar", "-i", "--input-format", "tar", "-n", fmt.Sprint(n), "-m", "1:2:4", "-s", srv.URL, "-e", "1", idxFile, "-"}
 	case "untar":
 		tree := filepath.Join(dir, "tree")
 		makeTree(srng, tree)
@@ -528,8 +563,28 @@ func runCLI(c *harness.Ctx, srng *rand.Rand, s, slot int) {
 	var stderr bytes.Buffer
 	cmd.Stderr = &stderr
 	cmd.Stdout = io.Discard
+	var stdin io.WriteCloser
+	if cmdName == "tar-stdin" {
+		stdin, _ = cmd.StdinPipe()
+	}
 	dsu.Must(cmd.Start())
 	atomic.StoreInt64(&childPid, int64(cmd.Process.Pid))
+	if cmdName == "tar-stdin" {
+		stdin.Write(stdinFirst)
+		if k > 0 {
+			// wait until the chunks of the first member are on their way, then interrupt, then deliver the rest
+			for w := 0; w < 300 && atomic.LoadInt64(&reqs) < 2; w++ {
+				time.Sleep(time.Millisecond)
+			}
+			time.Sleep(time.Duration(k) * time.Millisecond)
+			if cmd.Process.Signal(sig) == nil {
+				atomic.StoreInt32(&delivered, 1)
+			}
+			time.Sleep(5 * time.Millisecond)
+		}
+		stdin.Write(stdinRest)
+		stdin.Close()
+	}
 	if cmdName == "verify-index" && k > 0 {
 		time.Sleep(time.Duration(k*3) * time.Millisecond)
 		if cmd.Process.Signal(sig) == nil {
@@ -589,7 +644,7 @@ func runCLI(c *harness.Ctx, srng *rand.Rand, s, slot int) {
 			}
 		}
 		complete, detail = missing == 0, fmt.Sprintf("%d of %d chunks missing from the cache", missing, len(idx.Chunks))
-	case "tar":
+	case "tar", "tar-stdin":
 		raw, rerr := os.ReadFile(idxFile)
 		if rerr == nil {
 			ix, perr := desync.IndexFromReader(bytes.NewReader(raw))
@@ -600,7 +655,7 @@ func runCLI(c *harness.Ctx, srng *rand.Rand, s, slot int) {
 						missing++
 					}
 				}
-				complete, detail = missing == 0, fmt.Sprintf("%d of %d chunks missing", missing, len(ix.Chunks))
+				complete, detail = missing == 0 && ix.Length() == wantArchiveLen, fmt.Sprintf("%d of %d chunks missing, index describes %d bytes of an archive of %d", missing, len(ix.Chunks), ix.Length(), wantArchiveLen)
 			}
 		} else {
 			detail = "no index written"
